@@ -51,6 +51,10 @@ class DualCase(object):
                 for f in t.fields:
                     if r.random() < 0.6:
                         self.asyn.async_fields.add((t.name, f.name))
+                    if r.random() < 0.2:
+                        # resolvers that pass their work on to runtime.submit() and return what they get
+                        self.asyn.submit_fields.add((t.name, f.name))
+                        self.sync.submit_fields.add((t.name, f.name))
         self.schema_sync, _ = S.build_code_schema(self.ir, resolver_for=self.sync.resolver_for,
                                                   type_resolver_for=self.sync.type_resolver_for)
         self.schema_async, _ = S.build_code_schema(self.ir, resolver_for=self.asyn.resolver_for,
